@@ -291,6 +291,8 @@ pub struct XlsxBook {
     /// replace the generated `xl/sharedStrings.xml` by this text (`SharedStr` cells then still get
     /// consecutive indices in first-use order, without de-duplication)
     pub raw_shared_strings: Option<String>,
+    /// write the text of every defined name of two or more characters as two text nodes around a comment (C16)
+    pub split_defined_names: bool,
 }
 
 impl Default for XlsxBook {
@@ -310,6 +312,7 @@ impl XlsxBook {
             extra_parts: vec![],
             workbook_extra: String::new(),
             raw_shared_strings: None,
+            split_defined_names: false,
         }
     }
 }
@@ -925,7 +928,16 @@ impl XlsxBook {
             for (n, v) in &self.defined_names {
                 wb.push(Ev::Start(l.q("definedName"), vec![("name".into(), n.clone())]));
                 if !v.is_empty() {
-                    wb.push(text(v));
+                    let chars: Vec<char> = v.chars().collect();
+                    if self.split_defined_names && chars.len() >= 2 {
+                        // the text arrives in two Text events around a comment (C16)
+                        let k = chars.len() / 2;
+                        wb.push(text(&chars[..k].iter().collect::<String>()));
+                        wb.push(Ev::Other("<!--c-->".into()));
+                        wb.push(text(&chars[k..].iter().collect::<String>()));
+                    } else {
+                        wb.push(text(v));
+                    }
                 }
                 wb.push(end(&l.q("definedName")));
             }
